@@ -658,3 +658,85 @@ def build_tables() -> str:
     return ("From Coq Require Import List String.\nFrom ND Require Import Base.Dtype.\nImport ListNotations.\nOpen Scope string_scope.\n\n"
             f"Definition v1_dtypes : list (string * dtype) := [\n{rows}\n].\n\n"
             f"(* dtype singleton -> class name (= Schema.type_name, type(self).__name__) *)\nDefinition class_names : list (dtype * string) := [\n{arows}\n].\n")
+
+
+# ------------------------------------------------------------------ null fill of the reductions (C04 / C10) ---
+def null_fills():
+    """For sum/prod/min/max/all/any of _NumericOperationsImpl: every statement
+    `x = ndx.where(x.null, FILL, x.values)` with the isinstance class guarding it and FILL classified as a literal or
+    the type's min/max.  Fail-closed: any other read of x.null / x.values in the function is refused."""
+    text, mod = src("ndonnx/_core/_numericimpl.py")
+    cls = [n for n in mod.body if isinstance(n, ast.ClassDef) and n.name == "_NumericOperationsImpl"][0]
+    out = []
+
+    def is_x_attr(n, attr):
+        return isinstance(n, ast.Attribute) and n.attr == attr and isinstance(n.value, ast.Name) and n.value.id == "x"
+
+    def classify(node, env, fname):
+        if isinstance(node, ast.Constant) and isinstance(node.value, (bool, int)):
+            return node.value
+        if isinstance(node, ast.Call) and isinstance(node.func, ast.Attribute) and node.func.attr == "asarray" and node.args:
+            a = node.args[0]
+            if isinstance(a, ast.Constant) and isinstance(a.value, (bool, int)):
+                return a.value
+            if isinstance(a, ast.Attribute) and a.attr in ("min", "max") and isinstance(a.value, ast.Call) \
+                    and isinstance(a.value.func, ast.Attribute) and a.value.func.attr in ("get_finfo", "get_iinfo"):
+                return "type" + a.attr
+            raise Untranslatable(f"{fname}: fill value {ast.dump(a)[:80]}")
+        if isinstance(node, ast.Name) and node.id in env:
+            return env[node.id]
+        raise Untranslatable(f"{fname}: fill expression {ast.dump(node)[:80]}")
+
+    for fname in ("sum", "prod", "min", "max", "all", "any"):
+        fn = [m for m in cls.body if isinstance(m, ast.FunctionDef) and m.name == fname][0]
+        fills = []
+        n_reads = 0
+        for n in ast.walk(fn):
+            if is_x_attr(n, "null") or is_x_attr(n, "values"):
+                n_reads += 1
+            if isinstance(n, ast.Attribute) and n.attr == "dtype" and is_x_attr(n.value, "values"):
+                n_reads -= 1          # x.values.dtype: the dtype of the values field, not its data
+
+        def visit(stmts, guard):
+            env = {}
+            for st in stmts:
+                if isinstance(st, ast.If):
+                    g = None
+                    t = st.test
+                    if isinstance(t, ast.Call) and isinstance(t.func, ast.Name) and t.func.id == "isinstance" and len(t.args) == 2 \
+                            and isinstance(t.args[0], ast.Attribute) and t.args[0].attr == "dtype" and isinstance(t.args[1], ast.Attribute):
+                        g = t.args[1].attr
+                    visit(st.body, g or guard)
+                    visit(st.orelse, guard)
+                elif isinstance(st, ast.Assign) and len(st.targets) == 1 and isinstance(st.targets[0], ast.Name):
+                    tgt, v = st.targets[0].id, st.value
+                    if tgt == "x" and isinstance(v, ast.Call) and isinstance(v.func, ast.Attribute) and v.func.attr == "where" and len(v.args) == 3 \
+                            and is_x_attr(v.args[0], "null") and is_x_attr(v.args[2], "values"):
+                        if guard is None:
+                            raise Untranslatable(f"{fname}: null fill outside an isinstance guard")
+                        fills.append((guard, classify(v.args[1], env, fname)))
+                    elif tgt != "x":
+                        try:
+                            env[tgt] = classify(v, env, fname)
+                        except Untranslatable:
+                            pass
+        visit(fn.body, None)
+        if not fills:
+            raise Untranslatable(f"{fname}: no statement `x = ndx.where(x.null, FILL, x.values)` found")
+        if n_reads != 2 * len(fills):
+            raise Untranslatable(f"{fname}: x.null / x.values are read outside the null-fill statements ({n_reads} reads, {len(fills)} fills)")
+        out.append((fname, fills))
+    return out
+
+
+def emit_null_fills(rows) -> str:
+    def fk(v):
+        if v is True or v is False:
+            return f"FBool {'true' if v else 'false'}"
+        if isinstance(v, int):
+            return f"FInt ({v})"
+        return {"typemin": "FTypeMin", "typemax": "FTypeMax"}[v]
+    body = ";\n   ".join('("%s", [%s])' % (f, "; ".join('("%s", %s)' % (g, fk(k)) for g, k in fills)) for f, fills in rows)
+    return ("From Coq Require Import List ZArith Bool String.\nFrom ND Require Import Ndx.NullReduce.\nImport ListNotations.\nOpen Scope string_scope.\n"
+            "(* GENERATED from ndonnx/_core/_numericimpl.py: the null-fill statement of every reduction *)\n"
+            f"Definition null_fills : list (string * list (string * fillk)) :=\n  [{body}].\n")
